@@ -253,7 +253,8 @@ func IsPermanentError(err error) bool {
 		return false
 	}
 
-	if _, ok := err.(*TimeoutError); ok {
+	var timeoutErr *TimeoutError
+	if errors.As(err, &timeoutErr) {
 		return false
 	}
 	if errors.Is(err, context.DeadlineExceeded) {
@@ -324,7 +325,8 @@ func IsTransientError(err error) bool {
 		return true
 	}
 
-	if _, ok := err.(*TimeoutError); ok {
+	var timeoutErr *TimeoutError
+	if errors.As(err, &timeoutErr) {
 		return true
 	}
 
